@@ -1242,6 +1242,11 @@ class ManifestRecursiveLoader:
                     continue
 
                 fpath = os.path.join(relpath, f)
+                # skip top-level Manifest, we obviously can't have
+                # an entry for it (if there is one nevertheless, it is
+                # left in entry_dict and dropped like a stale entry)
+                if fpath == self.top_level_manifest_filename:
+                    continue
                 mpath, fe = entry_dict.pop(fpath, (None, None))
                 if fe is not None:
                     if fe.tag == 'IGNORE':
@@ -1256,10 +1261,6 @@ class ManifestRecursiveLoader:
                         if relpath in self.updated_manifests:
                             continue
                 else:
-                    # skip top-level Manifest, we obviously can't have
-                    # an entry for it
-                    if fpath == self.top_level_manifest_filename:
-                        continue
                     if fpath in new_manifests:
                         ftype = 'MANIFEST'
                         linked_manifests.add(fpath)
